@@ -18,6 +18,7 @@ import copy
 import json
 import random
 import time
+from pathlib import Path
 
 from .. import common, identlib
 from ..gen import cfggen
@@ -31,7 +32,8 @@ _orig_load_findings = common.load_findings
 
 
 def _load_findings(prop):
-    frag = common.VERIF / "known_findings.d" / f"{PROP}.json"
+    import os
+    frag = Path(os.environ["XV_C20_FINDINGS"]) if os.environ.get("XV_C20_FINDINGS") else common.VERIF / "known_findings.d" / f"{PROP}.json"
     if prop == PROP and frag.exists():
         return [f for f in json.loads(frag.read_text()) if f["property"] == PROP]
     return _orig_load_findings(prop)
@@ -46,6 +48,31 @@ def known_keys():
 
 def prove(ctx):
     common.check_proofs(ctx, MODULES)
+
+
+_WIRING = None
+
+
+def cli_wiring():
+    """which cleanup flag `cli/__init__.py::deprecated_list` hands to fix_deprecated (read from the current source, AST only):
+    'actual' = the flag as given (Lean `cliActual`), 'documented' = `cleanup and fix` (Lean `cliDocumented`)"""
+    global _WIRING
+    if _WIRING is None:
+        import ast
+        _WIRING = "actual"
+        try:
+            tree = ast.parse((common.REPO / "src/experimaestro/cli/__init__.py").read_text())
+            for fn in ast.walk(tree):
+                if isinstance(fn, ast.FunctionDef) and fn.name == "deprecated_list":
+                    assigned = any(isinstance(n, ast.Assign) and any(isinstance(t, ast.Name) and t.id == "cleanup" for t in n.targets) for n in ast.walk(fn))
+                    for call in ast.walk(fn):
+                        if isinstance(call, ast.Call) and getattr(call.func, "id", "") == "fix_deprecated" and len(call.args) >= 3:
+                            third = call.args[2]
+                            if isinstance(third, ast.BoolOp) and isinstance(third.op, ast.And) or assigned:
+                                _WIRING = "documented"
+        except (OSError, SyntaxError):
+            pass
+    return _WIRING
 
 
 # ======================================================================================= (a) identifiers
@@ -196,7 +223,7 @@ def model_lines_a(lib, case, rec):
 
 def correspond_a(ctx):
     rng = ctx.rng
-    libs, cases = gen_a(ctx, rng, ctx.scale(6, 40), ctx.scale(40, 250), "c20a")
+    libs, cases = gen_a(ctx, rng, ctx.scale(6, 25), ctx.scale(40, 120), "c20a")
     res = identlib.run_cases(ctx, libs, [{"lib": c["lib"], "steps": c["steps"]} for c in cases], shards=ctx.scale(8, 16))[None]
     good = []
     for case, rec in zip(cases, res):
@@ -414,8 +441,6 @@ class CaseEval:
         """finding classes a job spec belongs to (keys name the failing input class)"""
         s = self.case["jobs"][i]
         tags = []
-        if s["init"]:
-            tags.append("init-tasks")
         j = int(s["cls"][-1])
         if (s["cls"].startswith("OldT") or s["cls"].startswith("Old2T")) and self.case["lib"]["renamed"][j]:
             tags.append("renamed-task")
@@ -436,6 +461,8 @@ class CaseEval:
                         self.noparams.add(op["data"])
                 last_complete_fix = None
             elif k == "deprecate" or k == "run":
+                if k == "run":
+                    self.relaunched(r)
                 last_complete_fix = None
             elif k == "fix":
                 self.eval_fix(oi, r, recs[oi - 1] if oi else None)
@@ -445,7 +472,18 @@ class CaseEval:
             elif k == "resubmit":
                 if last_complete_fix is not None:
                     self.eval_resubmit(oi, r, recs[last_complete_fix])
+                self.relaunched(r)
                 last_complete_fix = None
+
+    def relaunched(self, r):
+        """a job that ran (again) has written a fresh params.json into its directory"""
+        t = canon_tree(r["after"])
+        for j in r["jobs"]:
+            if j["launched"]:
+                k = resolves_to(r["after"], j["rel"])
+                if k is not None:
+                    self.broken.discard(t[k][1])
+                    self.noparams.discard(t[k][1])
 
     # -- one call of the command
     def eval_fix(self, oi, r, prev):
@@ -510,8 +548,7 @@ class CaseEval:
                 tags = self.spec_class(spec_of[d]) if spec_of.get(d) is not None else []
                 if nk[1] == kb[1]:
                     if ka != kb:
-                        cls = ":" + "+".join(t for t in tags if t == "init-tasks") if "init-tasks" in tags else ""
-                        self.fail("up-to-date-directory-moved" + cls, f"{flags}: {'/'.join(kb)} already carries the identifier a resubmission computes "
+                        self.fail("up-to-date-directory-moved", f"{flags}: {'/'.join(kb)} already carries the identifier a resubmission computes "
                                   f"but was renamed to {'/'.join(ka)}", oi)
                         ok = False
                     continue
@@ -524,11 +561,7 @@ class CaseEval:
                 if r_after is not None and (other_claims or (r_before is not None and r_before != kb)):
                     ctx.count("b_reachable", "blocked by another directory (conflict)")
                     continue
-                cls = ""
-                if op["rel"]:
-                    cls = ":relative-path"
-                elif "init-tasks" in tags:
-                    cls = ":init-tasks"
+                cls = ":relative-path" if (op["rel"] and not op["cleanup"]) else ""
                 self.fail("new-identifier-not-reachable" + cls,
                           f"{flags} via {op['via']}: directory {'/'.join(kb)} has the new identifier {nk[0]}/{nk[1][:12]}… but that location "
                           f"{'leads nowhere' if r_after is None else 'leads to ' + '/'.join(r_after)} afterwards (link target: {dict((tuple(k), e) for k, e in after).get(nk)})", oi)
@@ -542,19 +575,18 @@ class CaseEval:
                         owner = ta[e[1]][1]
                     elif e[0] == "d":
                         owner = e[1]
-                    tags = self.spec_class(spec_of[owner]) if owner is not None and spec_of.get(owner) is not None else []
-                    cls = ":init-tasks" if "init-tasks" in tags else (":relative-path" if op["rel"] else "")
+                    cls = ":relative-path" if (op["rel"] and not op["cleanup"]) else ""
                     self.fail("entry-under-wrong-identifier" + cls,
                               f"{flags}: new entry {'/'.join(kx)} ({'link' if e[0] == 'l' else 'directory'}) is not the identifier any submitted job computes", oi)
                     ok = False
         # M3: an immediate second run changes nothing
         if complete and prev is not None and prev["op"]["op"] == "fix" and prev["interrupted"] is None and prev["cmd_error"] is None \
-                and (prev["op"]["fix"], prev["op"]["cleanup"]) == (op["fix"], op["cleanup"]) and not prev["op"]["rel"] and not op["rel"]:
+                and (prev["op"]["fix"], prev["op"]["cleanup"]) == (op["fix"], op["cleanup"]) and not prev["op"]["rel"] and not op["rel"] \
+                and (op["fix"] or not op["cleanup"] or prev["op"]["via"] == op["via"]):  # `list --cleanup`: CLI and function may differ
             ctx.count("b_second_run", "same" if ta == tb else "changed")
             if ta != tb:
                 diff = sorted("/".join(k) for k in set(ta) ^ set(tb)) or sorted("/".join(k) for k in ta if ta[k] != tb.get(k))
-                init = any("init-tasks" in self.spec_class(i) for i in spec_of.values() if i is not None)
-                self.fail("second-run-changes-tree" + (":init-tasks" if init else ""), f"{flags}: a second run changed {diff}", oi)
+                self.fail("second-run-changes-tree", f"{flags}: a second run changed {diff}", oi)
                 ok = False
         # correspondence with the Lean model: complete runs and runs interrupted between two steps
         if (complete or r["interrupted"] == "glob") and not (self.failed_keys & self.known):
@@ -594,14 +626,15 @@ class CaseEval:
             else:
                 tree.append(key(k) + [{"l": key(e[1])}])
         globs = r["globs"]
-        if op["cleanup"]:
+        if op["cleanup"] and (op["fix"] or not (op["via"] == "cli" and cli_wiring() == "documented")):
             ks1 = globs[0] if globs else []
             ks2 = globs[1] if len(globs) > 1 else []
         else:
             ks1, ks2 = [], (globs[0] if globs else [])
         if r["interrupted"] == "glob":  # the path at which the command was interrupted was never handed to the loop body
             pass
-        line = {"op": "fix", "fix": op["fix"], "cleanup": op["cleanup"], "tree": tree,
+        cleanup = op["cleanup"] and (op["fix"] or not (op["via"] == "cli" and cli_wiring() == "documented"))
+        line = {"op": "fix", "fix": op["fix"], "cleanup": cleanup, "tree": tree,
                 "ks1": [key(tuple(k)) for k in ks1], "ks2": [key(tuple(k)) for k in ks2]}
         want = sorted((key(k) + [{"d": e[1]} if e[0] == "d" else {"l": key(e[1])}]) for k, e in ta.items())
         return line, want, oi
@@ -622,10 +655,15 @@ class CaseEval:
                 ctx.count("b_resubmit_not_submitted_by_harness", j["state"])  # the harness's own choice, never a verdict
                 continue
             if j["launched"] or j["state"] != "DONE":
-                tags = self.spec_class(i)
+                tags = set(self.spec_class(i))
+                # the directory found at the job's location may be another job's (same new identifier): its marker files count
+                at = resolves_to(fixrec["after"], j["rel"])
+                if at is not None:
+                    owner = fixrec["spec_of"].get(str(canon_tree(fixrec["after"])[at][1]))
+                    if owner is not None:
+                        tags |= set(self.spec_class(owner))
+                tags = sorted(tags)
                 cls = ":" + "+".join(tags) if tags else ""
-                if fixrec["op"]["rel"]:
-                    cls = ":relative-path"
                 self.fail("resubmit-misses-result" + cls,
                           f"after `{'fix' + ('+cleanup' if fixrec['op']['cleanup'] else '')}` the job {self.case['jobs'][i]} was "
                           f"{'launched again' if j['launched'] else 'left in state ' + j['state']} at {'/'.join(j['rel'])[:60]}… although its result exists in "
@@ -675,7 +713,7 @@ def evaluate_ws(ctx, cases, res, with_model=True):
 
 def correspond_b(ctx):
     rng = ctx.rng
-    n = ctx.scale(260, 5000)
+    n = ctx.scale(260, 4000)
     cases = [gen_ws_case(rng, f"{ctx.seed}_{i}") for i in range(n)]
     t0 = time.time()
     res = run_ws_cases(ctx, cases, shards=16)
@@ -696,6 +734,7 @@ def correspond(ctx):
                         "the two glob calls of fix_deprecated yield every matching entry that exists when its directory is listed (their actual order is recorded "
                         "and given to the model)",
                         "links in the jobs tree point to job locations of the same workspace (links created by the command itself, or dangling)"]
+    ctx.notes.append(f"command-line wiring of --cleanup read from cli/__init__.py: {cli_wiring()}")
     correspond_a(ctx)
     correspond_b(ctx)
 
@@ -724,9 +763,10 @@ def run_witness(ctx, finding):
             ctx.notes.append(f"known finding {finding['id']} no longer reproduces on its witness (flip it to fixed)")
     else:
         del ctx.monitor_failures[before:]
-        if hit:
-            ctx.monitor_fail(f"regression:{finding['key']}", f"fixed finding {finding['id']} is back: {hit[0]['what']}", case)
-        # failures with other keys on a witness belong to other findings' witnesses
+        known = known_keys()
+        back = [m for m in hit + others if m["key"] not in known]
+        if back:
+            ctx.monitor_fail(f"regression:{finding['key']}", f"fixed finding {finding['id']} is back: {back[0]['key']}: {back[0]['what']}", case)
     ctx.count("witness_replayed", finding["id"])
 
 
